@@ -39,7 +39,7 @@ pub fn run_subject(prop: &str, s: &mut dyn Subject, ctx: &mut Ctx) {
     let d = s.desc();
     match prop {
         "C01" => mon::mon_get(s, ctx, &contiguous),
-        "C02" => mon::mon_put(s, ctx, &contiguous),
+        "C02" => mon::mon_put(s, ctx, &any),
         "C03" => mon::mon_array(s, ctx, &any),
         "C04" => {
             mon::mon_get(s, ctx, &list);
